@@ -418,6 +418,13 @@ def run(houses, tick=0.125, horizon=8, env_front=None, env_back=None, watch=(), 
             return STOPPED
         k = state["k"]
         if control not in (START, RUN):
+            # after the horizon: programs whose exit actions bid start again would run forever, so four
+            # ticks after the stop bid every taskable is bid abort (the reference does the same)
+            state["post"] = state.get("post", 0) + 1
+            if state["post"] >= 4:
+                for tk in house.taskables:
+                    if not isinstance(tk, HarnessTasker):
+                        tk.desire = ABORT
             return STOPPED
         if env_back is not None:
             env_back(house, k)
